@@ -77,6 +77,66 @@ def subsample(items, n, salt=""):
     return [items[i] for i in idx]
 
 
+def term_features(t, acc=None):
+    """coarse feature set of a program: node kinds, called names / attributes of calls, operators, keywords"""
+    if acc is None:
+        acc = set()
+    k = t["k"]
+    acc.add(k)
+    if k == "call":
+        f = t["a"][0]
+        if f["k"] == "name":
+            acc.add("fn:" + f["s"])
+        elif f["k"] == "attr":
+            acc.add("m:" + f["s"])
+        elif f["k"] == "lam":
+            acc.add("called-lambda")
+        if t["p"]:
+            acc.add("kw")
+            if any(has_feature_call(c) for c in t["a"][1 + t["n"]:]):
+                acc.add("kw-with-call")
+    elif k in ("binop", "unop", "boolop"):
+        acc.add(k + t["s"])
+    elif k == "sub":
+        acc.add("sub:" + t["a"][1]["k"])
+    for c in t["a"]:
+        term_features(c, acc)
+    return acc
+
+
+def has_feature_call(t):
+    if t["k"] == "call" and t["a"][0]["k"] == "attr":
+        return True
+    return any(has_feature_call(c) for c in t["a"])
+
+
+def subsample_stratified(items, n, salt="", key=None):
+    """Seeded sub-sample that keeps rare shapes: items are grouped by feature set and the groups are
+    drained round-robin, so a construct that occurs in few programs is never sampled away."""
+    if len(items) <= n:
+        return list(items)
+    key = key or (lambda t: tuple(sorted(term_features(t))))
+    rnd = random.Random(f"{seed()}:{salt}")
+    groups = {}
+    for i, it in enumerate(items):
+        groups.setdefault(key(it), []).append(i)
+    order = sorted(groups)
+    for g in order:
+        rnd.shuffle(groups[g])
+    picked = []
+    while len(picked) < n:
+        progressed = False
+        for g in order:
+            if groups[g]:
+                picked.append(groups[g].pop())
+                progressed = True
+                if len(picked) >= n:
+                    break
+        if not progressed:
+            break
+    return [items[i] for i in sorted(picked)]
+
+
 # ----------------------------------------------------------------------------------
 # validation: records -> TLC (sharded) -> verdicts
 def validate(prop, name, module, records, nshards=16, timeout=3600, extra_env=None, xmx="3g",
